@@ -93,6 +93,7 @@ Definition oSub (cb : Z) (t : tmo) (sid : sidref) : op := OSub (zopt cb) t sid.
 Definition oUns (sid : sidref) : op := OUnsub sid.
 Definition oSet (i x : Z) : op := OSet (Z.to_nat i) (Z.to_N x).
 Definition oAdv (dt : Z) : op := OAdv (Z.to_N dt).
+Definition oLate (dt i x : Z) : op := OLate (Z.to_N dt) (Z.to_nat i) (Z.to_N x).
 Definition oDel (k outcome : Z) : op := ODeliver (Z.to_nat k) (Z.to_N outcome).
 Definition oJmp (sid key : Z) : op := OJump (Z.to_N sid) (Z.to_N key).
 Definition rNo : sres := SNone.
